@@ -38,6 +38,8 @@ def main():
         from . import guards
         from .ctx import Ctx
         guards.translator_validation(Ctx.get(), rep, seed)
+        from . import dech
+        rep.extra["mtok_fidelity_probe"] = dech.probe_mtok(Ctx.get())
         stubs = mod.run(rep, a.tier, seed, a.budget)
     except BaseException as ex:  # noqa
         import traceback
